@@ -257,7 +257,7 @@ PROPS = {
                  'self/mutual/through-body/through-include recursion without base case must be an error, bounded recursion within the limit must render.',
         'note': 'generator exclusions: negative parameter defaults, map literals forming `{{`/`}}` inside `name={..}`, typed parameters whose default contradicts the type; which escaping mode a component\'s own prints follow when caller and definer disagree is not asserted',
         'rule': "one evaluation = one registration/render; a cell = (number of parameters, rest/closed, body/inline, call site, bound or rejection reason) plus cells of the escaping, priority and recursion families",
-        'must_observe': ['context_dumps_compared', 'rejections_agree', 'api_template_pairs', 'escape_checks', 'priority_checks', 'recursion_checks', 'render_str_calls_compared'],
+        'must_observe': ['context_dumps_compared', 'rejections_agree', 'api_template_pairs', 'escape_checks', 'priority_checks', 'recursion_checks', 'render_str_calls_compared', 'isolation_through_include_checks'],
     },
     'C01': {
         'scale': {'quick': 2, 'thorough': 1.5},
